@@ -17,6 +17,7 @@ import os
 from typing import Dict, List, Optional, Tuple
 
 _BASELINE: Optional[set] = None
+_BASELINE_PARAMS: Dict[Tuple[str, str], Optional[List[str]]] = {}
 MAX_NODES = 600
 
 
@@ -26,7 +27,10 @@ def baseline() -> set:
         p = os.path.join(os.path.dirname(os.path.abspath(__file__)), "baseline_symbols.json")
         try:
             with open(p) as f:
-                _BASELINE = {tuple(x) for x in json.load(f)}
+                rows = json.load(f)
+            _BASELINE = {(x[0], x[1]) for x in rows}
+            global _BASELINE_PARAMS
+            _BASELINE_PARAMS = {(x[0], x[1]): (x[2] if len(x) > 2 else None) for x in rows}
         except OSError:
             _BASELINE = set()
     return _BASELINE
@@ -317,12 +321,20 @@ class _Inliner:
                     break
             if cand is None:
                 cand = self.mod_helpers.get(f.id)
-        elif isinstance(f, ast.Attribute) and isinstance(f.value, ast.Name) and cls is not None:
-            if f.value.id in ("self", "cls") or f.value.id == cls:
-                cand = self.cls_helpers.get((cls, f.attr))
-                recv = f.value if f.value.id in ("self", "cls") else None
-                if cand is not None and cand["bound"] and recv is None:
-                    cand = None
+        elif isinstance(f, ast.Attribute) and isinstance(f.value, ast.Name) and cls is not None and (f.value.id in ("self", "cls") or f.value.id == cls):
+            cand = self.cls_helpers.get((cls, f.attr))
+            # `self.m(..)` / `cls.m(..)` / `ClassName.m(..)` (a classmethod called through the class: cls is the class itself)
+            recv = f.value
+            if cand is not None and cand["bound"] and f.value.id == cls and cand["params"] and cand["params"][0] == "self":
+                cand = None  # an instance method called through the class passes self explicitly: leave it alone
+        elif isinstance(f, ast.Attribute):
+            # `<expr>.m(...)` where m is a NEW method defined exactly once in this module: whatever object is asked, it is
+            # of that class (nothing else has a method of that name yet)
+            owners = [k for k in self.cls_helpers if k[1] == f.attr]
+            if len(owners) == 1 and f.attr.startswith("_"):
+                c2 = self.cls_helpers[owners[0]]
+                if c2["bound"] and not isinstance(f.value, ast.Call):
+                    cand, recv = c2, f.value
         if cand is None or id(cand["def"]) in inside:
             return None, None
         return cand, recv
@@ -362,6 +374,24 @@ class _Inliner:
                         out.extend(binds + self.block(body, cls, fn_stack, inside | {id(cand["def"])}))
                         self.log.append((cand["def"].name, getattr(s, "lineno", 0)))
                         done = True
+            elif isinstance(s, ast.Expr) and isinstance(s.value, ast.Call):
+                # a helper called for its effects: `H(args)` as a statement
+                cand, recv = self.lookup(s.value, cls, fn_stack, inside)
+                if cand is not None:
+                    r = _stmt_block(cand, s.value, recv, s)
+                    tf = _tail_form(r[1]) if r is not None else None
+                    if r is not None and tf is not None:
+                        binds, _ = r
+
+                        def make_expr(ret):
+                            if ret.value is None or (isinstance(ret.value, ast.Constant) and ret.value.value is None):
+                                return ast.copy_location(ast.Pass(), ret)
+                            return ast.copy_location(ast.Expr(value=ret.value), ret)
+
+                        body = _replace_leaves(tf, make_expr)
+                        out.extend(binds + self.block(body, cls, fn_stack, inside | {id(cand["def"])}))
+                        self.log.append((cand["def"].name, getattr(s, "lineno", 0)))
+                        done = True
             if done:
                 continue
             # recurse into compound statements
@@ -390,8 +420,30 @@ class _ExprInliner(ast.NodeTransformer):
 
     visit_AsyncFunctionDef = visit_ClassDef = visit_FunctionDef
 
+    def _as_lambda(self, v: ast.AST) -> ast.AST:
+        """A bare reference to a new pure function handed over as a value (`key=_order`) reads as the lambda it denotes."""
+        if not isinstance(v, ast.Name):
+            return v
+        cand = self.o.mod_helpers.get(v.id)
+        if cand is None or cand["bound"] or id(cand["def"]) in self.inside:
+            return v
+        params = cand["params"]
+        if cand["defaults"] or cand["kwonly"]:
+            return v
+        body = _tail_expr(list(cand["def"].body), {})
+        if body is None or _size(body) > MAX_NODES:
+            return v
+        lam = ast.Lambda(args=ast.arguments(posonlyargs=[], args=[ast.arg(arg=p_) for p_ in params], kwonlyargs=[], kw_defaults=[], defaults=[]), body=body)
+        for x in ast.walk(lam):
+            ast.copy_location(x, v)
+        self.o.log.append((cand["def"].name, getattr(v, "lineno", 0)))
+        return lam
+
     def visit_Call(self, n: ast.Call):
         n = self.generic_visit(n)
+        n.args = [self._as_lambda(a) for a in n.args]
+        for k in n.keywords:
+            k.value = self._as_lambda(k.value)
         cand, recv = self.o.lookup(n, self.cls, self.fn_stack, self.inside)
         if cand is None:
             return n
@@ -596,3 +648,156 @@ def canonicalise_accumulate_loops(tree: ast.Module) -> int:
     if n_done:
         ast.fix_missing_locations(tree)
     return n_done
+
+
+# ------------------------------------------------------------------------------------------ re-nesting of lifted functions
+def _refs_in(outer_def, names) -> List[Tuple[ast.AST, str, str]]:
+    """References (not calls) to one of `names` inside outer_def: (node, name, kind) with kind 'bare' | 'partial' | 'method'."""
+    out = []
+    called = set()
+    for n in ast.walk(outer_def):
+        if isinstance(n, ast.Call):
+            called.add(id(n.func))
+    for n in ast.walk(outer_def):
+        if isinstance(n, ast.Call) and isinstance(n.func, (ast.Attribute, ast.Name)) and (getattr(n.func, "attr", None) == "partial" or getattr(n.func, "id", None) == "partial") and n.args:
+            g = n.args[0]
+            if isinstance(g, ast.Name) and g.id in names:
+                out.append((n, g.id, "partial"))
+            elif isinstance(g, ast.Attribute) and isinstance(g.value, ast.Name) and g.value.id in ("self", "cls") and g.attr in names:
+                out.append((n, g.attr, "partial-method"))
+    partial_args = {id(n.args[0]) for n, _, k in out if k.startswith("partial")}
+    for n in ast.walk(outer_def):
+        if id(n) in called or id(n) in partial_args:
+            continue
+        if isinstance(n, ast.Name) and isinstance(n.ctx, ast.Load) and n.id in names:
+            out.append((n, n.id, "bare"))
+        elif isinstance(n, ast.Attribute) and isinstance(n.ctx, ast.Load) and isinstance(n.value, ast.Name) and n.value.id in ("self", "cls") and n.attr in names:
+            out.append((n, n.attr, "method"))
+    return out
+
+
+def renest_lifted(tree: ast.Module, relpath: str) -> List[Tuple[str, str]]:
+    """A nested function of the baseline that has vanished from its enclosing function, while that function now passes a NEW
+    module-level function (or method) around as a value (`G`, `ft.partial(G, env=env)`, `self._g`): the nested function was
+    lifted out. It is put back under its baseline name — parameters bound by the partial become closure names again — so that
+    the enclosing function reads as before. Returns [(baseline nested name, lifted function)]."""
+    base = baseline()
+    if not base:
+        return []
+    qs = qualnames(tree)
+    cur = {qn: (d, cls, outer) for qn, d, cls, outer in qs}
+    missing: Dict[str, List[Tuple[str, Optional[List[str]]]]] = {}
+    for (rel, qn), params in _BASELINE_PARAMS.items():
+        if rel != relpath or qn in cur or "." not in qn:
+            continue
+        outer_qn = qn.rsplit(".", 1)[0]
+        if outer_qn in cur and (relpath, outer_qn) in base and isinstance(cur[outer_qn][0], (ast.FunctionDef, ast.AsyncFunctionDef)):
+            # only direct children of a function (not of a class)
+            if any(q == outer_qn and isinstance(d, (ast.FunctionDef, ast.AsyncFunctionDef)) for q, d, _, _ in qs):
+                missing.setdefault(outer_qn, []).append((qn.rsplit(".", 1)[1], params))
+    if not missing:
+        return []
+    new_defs = {}
+    for qn, d, cls, outer in qs:
+        if (relpath, qn) not in base and outer is None:
+            new_defs[d.name] = (d, cls)
+    if not new_defs:
+        return []
+    done = []
+    for outer_qn, items in missing.items():
+        outer_def = cur[outer_qn][0]
+        refs = _refs_in(outer_def, set(new_defs))
+        if not refs:
+            continue
+        by_name: Dict[str, List] = {}
+        for node, name, kind in refs:
+            by_name.setdefault(name, []).append((node, kind))
+        for xname, xparams in items:
+            # choose the lifted function whose free parameters match the vanished nested function's
+            chosen = None
+            for gname, uses in by_name.items():
+                gdef, gcls = new_defs[gname]
+                gp = [a.arg for a in gdef.args.posonlyargs + gdef.args.args + gdef.args.kwonlyargs]
+                if gcls is not None and gp and gp[0] in ("self", "cls"):
+                    gp = gp[1:]
+                bound = set()
+                npos = 0
+                for node, kind in uses:
+                    if kind.startswith("partial"):
+                        npos = max(npos, len(node.args) - 1)
+                        bound |= {k.arg for k in node.keywords if k.arg}
+                free = [x for i, x in enumerate(gp) if i >= npos and x not in bound]
+                if xparams is None or len(free) == len(xparams):
+                    if chosen is not None:
+                        chosen = None
+                        break
+                    chosen = (gname, gdef, gcls, gp, npos, bound, uses)
+            if chosen is None:
+                continue
+            gname, gdef, gcls, gp, npos, bound, uses = chosen
+            nested = copy.deepcopy(gdef)
+            nested.name = xname
+            nested.decorator_list = []
+            pre: List[ast.stmt] = []
+            # bindings from the (first) partial
+            first_partial = next((node for node, kind in uses if kind.startswith("partial")), None)
+            bind_map: Dict[str, ast.AST] = {}
+            if first_partial is not None:
+                for x, a in zip(gp, first_partial.args[1:]):
+                    bind_map[x] = a
+                for k in first_partial.keywords:
+                    if k.arg:
+                        bind_map[k.arg] = k.value
+            keep_args = []
+            all_args = nested.args.posonlyargs + nested.args.args
+            for a in all_args:
+                if gcls is not None and a.arg in ("self", "cls") and a is all_args[0]:
+                    continue
+                if a.arg in bind_map:
+                    v = bind_map[a.arg]
+                    if not (isinstance(v, ast.Name) and v.id == a.arg):
+                        asg = ast.Assign(targets=[ast.Name(id=a.arg, ctx=ast.Store())], value=copy.deepcopy(v))
+                        pre.append(asg)
+                    continue
+                keep_args.append(a)
+            nested.args.posonlyargs = []
+            nested.args.args = keep_args
+            nested.args.defaults = nested.args.defaults[-len(keep_args):] if nested.args.defaults and len(nested.args.defaults) <= len(keep_args) else []
+            nested.args.kwonlyargs = [a for a in nested.args.kwonlyargs if a.arg not in bind_map]
+            nested.args.kw_defaults = [None] * len(nested.args.kwonlyargs)
+            nested.body = pre + nested.body
+            # where: before the top-level statement of the outer body that contains the first reference
+            first_ref = uses[0][0]
+            idx = 0
+            for i, st in enumerate(outer_def.body):
+                if any(z is first_ref for z in ast.walk(st)):
+                    idx = i
+                    break
+            for z in ast.walk(nested):
+                if hasattr(z, "lineno"):
+                    pass
+            outer_def.body.insert(idx, nested)
+            # replace the references
+            targets = {id(node): kind for node, kind in uses}
+
+            class _R(ast.NodeTransformer):
+                def generic_visit(self, node):
+                    node = super().generic_visit(node)
+                    return node
+
+                def visit(self, node):
+                    if id(node) in targets:
+                        return ast.copy_location(ast.Name(id=xname, ctx=ast.Load()), node)
+                    return super().visit(node)
+
+            for i, st in enumerate(outer_def.body):
+                if st is nested:
+                    continue
+                outer_def.body[i] = _R().visit(st)
+            done.append((xname, gname))
+            del by_name[gname]
+    if done:
+        # drop lifted definitions that are no longer referenced
+        _remove_unreferenced(tree, [new_defs[g][0] for _, g in done])
+        ast.fix_missing_locations(tree)
+    return done
